@@ -686,3 +686,29 @@ package caldav
 //@ -- (P1-P5), given that the header values travel unchanged (T-http):
 //@ lemma C10_etag: forall x string :: unquoteOk(quote(x)) && unquoteVal(quote(x)) == x
 //@ lemma C10_time: forall n int :: timeParseOk(http.TimeFormat, timeFormat(http.TimeFormat, n)) && timeParseNs(http.TimeFormat, timeFormat(http.TimeFormat, n)) == truncSec(n)
+
+//@ -- REPORT bodies (C08, C13): encoding/xml calls reportReq.UnmarshalXML with the root element; the root name alone selects
+//@ -- the request kind, the element is decoded into a fresh request struct of that kind, any other root is an error
+//@ -- (answered 400 by DecodeXMLRequest) that leaves the target untouched
+//@ spec isCalQueryRoot(n xml.Name) bool = n.Space == "urn:ietf:params:xml:ns:caldav" && n.Local == "calendar-query"
+//@ spec isCalMultigetRoot(n xml.Name) bool = n.Space == "urn:ietf:params:xml:ns:caldav" && n.Local == "calendar-multiget"
+//@ func caldav.(*reportReq).UnmarshalXML(r, d, start) (err)
+//@   requires R1: r != nil && d != nil
+//@   allocates
+//@   assigns H_caldav_reportReq_Query, H_caldav_reportReq_Multiget, ghost:deLast, ghost:deStart
+//@   ensures X1: isCalQueryRoot(start.Name) ==> r.Query != nil && fresh(r.Query) && r.Multiget == old(r.Multiget) && dynPtr(deLast, "*calendarQuery") == r.Query && deStart.Name == start.Name
+//@   ensures X2: isCalMultigetRoot(start.Name) ==> r.Multiget != nil && fresh(r.Multiget) && r.Query == old(r.Query) && dynPtr(deLast, "*calendarMultiget") == r.Multiget && deStart.Name == start.Name
+//@   ensures X3: !isCalQueryRoot(start.Name) && !isCalMultigetRoot(start.Name) ==> err != nil && r.Query == old(r.Query) && r.Multiget == old(r.Multiget) && deLast == old(deLast)
+//@   ensures X4: forall q *reportReq :: q != r && old(allocated(q)) ==> q.Query == old(q.Query) && q.Multiget == old(q.Multiget)
+
+//@ -- the negate-condition attribute (RFC 4791 9.7.5: "yes" | "no", default "no"): text form and round trip (C08)
+//@ func caldav.(*negateCondition).UnmarshalText(nc, b) (err)
+//@   requires R1: nc != nil
+//@   assigns HC_caldav_negateCondition
+//@   ensures U1: err == nil <==> (string(b) == "yes" || string(b) == "no")
+//@   ensures U2: err == nil ==> (bool(*nc) <==> string(b) == "yes")
+//@   ensures U3: err != nil ==> *nc == old(*nc) && httpCode(err) == -1
+//@ func caldav.(negateCondition).MarshalText(nc) (b, err)
+//@   ensures M1: err == nil && string(b) == (bool(nc) ? "yes" : "")
+//@ func caldav.verifNegateConditionRoundTrip(b) (r, err)
+//@   ensures RT: err == nil && r == b
